@@ -135,6 +135,17 @@ class SymEnv(BaseEnv):
     def true(self, cond, label):
         self.ctx.oblige(cond, label, self.witness)
 
+    def true_all(self, conds, label):
+        """one obligation for a conjunction of conditions (one solver query)"""
+        sc = self.sc
+        ts = []
+        for c in conds:
+            if isinstance(c, sc.SymBool):
+                ts.append(c.t)
+            else:
+                ts.append(sc.TRUE if bool(c) else sc.FALSE)
+        self.ctx.oblige(sc.And_(*ts), label, self.witness)
+
     def same(self, a, b, label):
         """a and b (scalars or arrays) are identical values (NaN == NaN), same shape"""
         sn, sc = self.sn, self.sc
@@ -226,6 +237,10 @@ class ConcreteEnv(BaseEnv):
         self.checks += 1
         if not bool(np.all(cond)):
             raise CheckFailed(label)
+
+    def true_all(self, conds, label):
+        for i, c in enumerate(conds):
+            self.true(c, '%s [#%d]' % (label, i))
 
     def same(self, a, b, label):
         self.checks += 1
